@@ -196,6 +196,8 @@ DESC = {
     "C12-10": 'container_untake accumulates slice cotangents with `a + b` (nested sequences are concatenated instead of added)',
     "C17-9": 'find_top_boxed_args sorts (trace, argnum, box) descending: argnums / parents / tangents arrive in descending position order (positional-style defvjp_argnums / defjvp_argnums rules)',
     "C17-10": "two edits: defjvp_argnums also stores rules under the raw function + JVPNode falls back to that entry (a primitive without a forward rule borrows a sibling wrapper's)",
+    "C19-11": "unary_to_nary keeps the call's (args, kwargs) in a dict owned by the operator object (a lazily evaluated make_jvp result runs with the arguments of the last call)",
+    "C19-12": "two edits: roots built from plain Python numbers are cached and reused + make_jvp zeroes its root's tangent after the evaluation (a second forward-mode call with an equal tangent gets a zero tangent)",
     "C20-3": "TraceStack.__init__ with a mutable default list shared by all threads",
     "C20-4": "trace() saves/restores the depth through a module-level list shared by all threads",
 }
